@@ -30,6 +30,7 @@ type clientCase struct {
 	Blob   int      `json:"blob"` // > 0: the first byte-string field of the request gets this many bytes
 	Chunk  int      `json:"chunk"`
 	TxID   uint32   `json:"txid"`
+	Code   string   `json:"code,omitempty"` // result code of the answer ("" = Success)
 }
 
 var clientMethods = []string{"JoinReq", "RejoinReq", "PRStartReq", "PRStopReq", "XmitDataReq", "ProfileReq", "HomeNSReq"}
@@ -105,7 +106,11 @@ func checkClient(c clientCase) evid.Outcome {
 	ans := reflect.New(ansT).Elem()
 	fill(ans, &tape{b: c.Ans})
 	res := ans.FieldByName("BasePayloadResult").FieldByName("Result")
-	res.FieldByName("ResultCode").SetString(string(backend.Success))
+	code := c.Code
+	if code == "" {
+		code = string(backend.Success)
+	}
+	res.FieldByName("ResultCode").SetString(code)
 	if c.Desc > 0 {
 		res.FieldByName("Description").SetString(strings.Repeat("answer text ", c.Desc/12+1)[:c.Desc])
 	}
@@ -138,11 +143,13 @@ func checkClient(c clientCase) evid.Outcome {
 		return evid.Fail("client.%s panics: %v", c.Method, p)
 	}
 	where := fmt.Sprintf("client.%s with an answer body of %d bytes served in reads of %d bytes", c.Method, len(body), c.Chunk)
-	if e, _ := out[1].Interface().(error); e != nil {
+	if e, _ := out[1].Interface().(error); e != nil && code == string(backend.Success) {
 		return evid.Fail("%s: error %v; a plain json.Unmarshal of the same body succeeds. Body: %s", where, e, clip(body))
 	}
+	// whatever the result code (the caller needs Deferred / Lifetime, the description, the transaction id of a refusal):
+	// the answer handed back is the answer that was sent
 	if d := diff(ansT.Name(), want.Elem(), out[0]); d != "" {
-		return evid.Fail("%s returns an answer that differs from the body it was sent: %s. Body: %s", where, d, clip(body))
+		return evid.Fail("%s (result code %s) returns an answer that differs from the body it was sent: %s. Body: %s", where, code, d, clip(body))
 	}
 	// the request as the peer receives it
 	if postErr != nil || len(posted) == 0 {
@@ -181,7 +188,10 @@ func checkClient(c clientCase) evid.Outcome {
 	case len(body) > 4096:
 		size = "gt4096"
 	}
-	return evid.Outcome{NonTrivial: len(body) > c.Chunk, Class: c.Method + "/body-" + size, Key: bytes.Join([][]byte{[]byte(c.Method), c.Req, c.Ans, []byte(fmt.Sprint(c.Desc, c.Blob, c.Chunk))}, nil)}
+	if code != string(backend.Success) {
+		size += "/refusal"
+	}
+	return evid.Outcome{NonTrivial: len(body) > c.Chunk, Class: c.Method + "/body-" + size, Key: bytes.Join([][]byte{[]byte(c.Method), c.Req, c.Ans, []byte(fmt.Sprint(c.Desc, c.Blob, c.Chunk, c.Code))}, nil)}
 }
 
 func genClient(t *rapid.T) clientCase {
@@ -203,6 +213,9 @@ func genClient(t *rapid.T) clientCase {
 	}
 	if rapid.IntRange(0, 3).Draw(t, "blob") == 0 {
 		c.Blob = rapid.SampledFrom([]int{255, 256, 1024, 4096, 40000}).Draw(t, "b") + rapid.IntRange(-3, 3).Draw(t, "boff")
+	}
+	if rapid.IntRange(0, 3).Draw(t, "refusal") == 0 {
+		c.Code = rapid.SampledFrom([]string{"Deferred", "MICFailed", "UnknownDevEUI", "NoRoamingAgreement", "XmitFailed", "Other", "JoinReqFailed", "MalformedRequest"}).Draw(t, "code")
 	}
 	c.Chunk = rapid.SampledFrom([]int{1 << 30, 1 << 30, 4096, 1460, 512, 100, 7, 1}).Draw(t, "chunk")
 	if c.Chunk < 100 && c.Desc > 20000 {
